@@ -9,6 +9,8 @@ Open Scope Z_scope.
 
 Definition ss_b2z (b : bool) : Z := if b then 1 else 0.
 Definition ss_oz (o : option Z) : Z := match o with Some z => z | None => -1 end.
+(* an enterprise allocation has no challenge pool node (the model keeps Some 0 for it) *)
+Definition ss_cpz (a : ss_alloc) : Z := if al_ent a then -1 else ss_oz (al_cp a).
 
 Definition ss_flat_ba (d : ss_balloc) : list Z :=
   [ba_blobber d; ba_size d; ba_wp d; ba_rp d; ba_cpiv d; ba_chreward d; ba_penalty d; ba_returned d; ba_readrew d;
@@ -19,7 +21,7 @@ Definition ss_flat_oc (o : ss_oc) : list Z := [oc_id o; oc_blobber o; oc_created
 
 Definition ss_flat_alloc (a : ss_alloc) : list Z :=
   [al_id a; al_owner a; al_start a; al_exp a; al_size a; al_data a; al_parity a; al_wpool a; al_mtc a; al_mb a; al_mtv a;
-   ss_b2z (al_tpe a); al_used a; al_tot a; al_open a; al_succ a; al_fail a; ss_oz (al_cp a); ss_b2z (al_chnode a);
+   ss_b2z (al_tpe a); al_used a; al_tot a; al_open a; al_succ a; al_fail a; ss_cpz a; ss_b2z (al_chnode a);
    Z.of_nat (length (al_bas a))] ++ flat_map ss_flat_ba (al_bas a) ++
   [Z.of_nat (length (al_ocs a))] ++ flat_map ss_flat_oc (al_ocs a).
 
@@ -46,7 +48,7 @@ Definition ss_flat (keys : list Z) (akeys : list Z) (rkeys : list (Z * Z * Z)) (
 (* digest compared after every transaction *)
 Definition ss_digest (c : ss_conf) (s : ss_state) : list Z :=
   [Z.of_nat (length (st_allocs s));
-   ss_sum (map (fun a => ss_oz (al_cp a)) (st_allocs s));
+   ss_sum (map (fun a => ss_cpz a) (st_allocs s));
    ss_sum (map al_wpool (st_allocs s));
    ss_sum (map (fun a => ss_sum_cpiv (al_bas a)) (st_allocs s));
    ss_sum (map bl_allocd (st_blobbers s));
@@ -60,7 +62,7 @@ Fixpoint ss_run_dig (c : ss_conf) (s : ss_state) (ts : list (Z * Z * ss_op)) : s
   match ts with
   | [] => (s, [])
   | t :: tl =>
-      let '(s1, ok) := ss_step c s t in
+      let '(s1, ok) := ss_step_w c s t in
       let '(s2, r) := ss_run_dig c s1 tl in
       (s2, (ok, ss_digest c s1) :: r)
   end.
